@@ -18,7 +18,19 @@ from . import c07_epy
 
 HEADER = '''from __future__ import annotations
 import cohdl
-from cohdl import Bit, BitVector, Unsigned, Port, Signal, Variable, Null, std, vhdl
+from cohdl import Bit, BitVector, Unsigned, Array, Port, Signal, Variable, Null, std, vhdl
+import contextlib as _ctxlib
+from cohdl._core import _context as _cohdl_context
+
+
+@_ctxlib.contextmanager
+def blk():
+    # nested block; std.block wraps the same two functions
+    _cohdl_context._enter_block(_cohdl_context.Block("", {}))
+    try:
+        yield
+    finally:
+        _cohdl_context._exit_block()
 
 
 class Sub(cohdl.Entity):
@@ -163,6 +175,46 @@ def extra_programs():
     out.append(("x|inst-output-slice->inport", _x_entity([], ["Sub2(i=self.src, o1=self.pin[1:0], o2=sig[1:0])"]), "reject"))
     for k in kinds:
         out.append((f"x|inst-output+{k}->signal", _x_entity([], ["Sub(i=self.src, o=sig)"] + _writer(k, 1, "sig", "self.pin")), "reject"))
+    # ---- array-typed signal: elements selected by constant / run-time index, written from two contexts
+    ram_decl = ["ram = Signal[Array[BitVector[4], 4]](name='ram')"]
+    ram_use = ["std.concurrent_assign(self.r, ram[self.pin[1:0].unsigned])"]
+    elems = {"dyn": "ram[self.src[1:0].unsigned]", "dyn2": "ram[self.pin[3:2].unsigned]", "c0": "ram[0]", "c3": "ram[3]"}
+    akinds = ["std-next", "std-push", "core-push", "conc", "always"]
+    for k1, k2 in itertools.combinations_with_replacement(akinds, 2):
+        for e1, e2 in (("dyn", "dyn2"), ("dyn", "c3"), ("c0", "c3"), ("c0", "c0")):
+            if "push" in k1 + k2 and (e1, e2) != ("dyn", "c3"):
+                continue
+            w1 = [l.replace("nonlocal sig", "nonlocal ram") for l in _writer(k1, 1, elems[e1], "self.src")]
+            w2 = [l.replace("nonlocal sig", "nonlocal ram") for l in _writer(k2, 2, elems[e2], "self.pin")]
+            out.append((f"x|array:{k1}:{e1}+{k2}:{e2}", _x_entity(ram_decl, ram_use + w1 + w2), "reject"))
+    for k in ("std-next", "conc"):
+        out.append((f"x|array:{k}:two-elements-one-context", _x_entity(ram_decl, ram_use + ["@std.sequential(std.Clock(self.clk))" if k == "std-next" else "@std.concurrent", "def w1():", "    nonlocal ram",
+                                                                                       "    ram[0] <<= self.src", "    ram[3] <<= self.pin"] + ([] if k == "conc" else ["    ram[self.pin[1:0].unsigned] <<= self.src"])), "accept"))
+    out.append(("x|array:inst-output+std-next", _x_entity(ram_decl, ram_use + ["Sub(i=self.src, o=ram[1])"] + [l.replace("nonlocal sig", "nonlocal ram") for l in _writer("std-next", 1, "ram[2]", "self.pin")]), "reject"))
+    # ---- nested blocks (depth 1 = block in the architecture, depth 2 = block inside a block that has no contexts of its own)
+    def nest(lines, depth):
+        for d in range(depth):
+            lines = ["with blk():"] + ["    " + l for l in lines]
+        return lines
+    nkinds = ["std-next", "conc", "always", "core-push"]
+    for depth1, depth2 in ((0, 1), (0, 2), (1, 1), (2, 2), (1, 2)):
+        for k1, k2 in itertools.product(nkinds, nkinds):
+            if (depth1, depth2) not in ((0, 1), (0, 2)) and k1 > k2:
+                continue
+            w1 = nest(_writer(k1, 1, "sig", "self.src"), depth1)
+            w2 = nest(_writer(k2, 2, "sig", "self.pin"), depth2)
+            out.append((f"x|nested{depth1}{depth2}:{k1}+{k2}", _x_entity([], ["std.concurrent_assign(self.r, sig)"] + w1 + w2), "reject"))
+    for depth in (1, 2):
+        for k in nkinds:
+            out.append((f"x|nested{depth}:{k}:single", _x_entity([], ["std.concurrent_assign(self.r, sig)"] + nest(_writer(k, 1, "sig", "self.src"), depth)), "accept"))
+            out.append((f"x|nested{depth}:inst-output+{k}", _x_entity([], ["std.concurrent_assign(self.r, sig)"] + nest(["Sub(i=self.src, o=sig)"], depth) + _writer(k, 1, "sig", "self.pin")), "reject"))
+            out.append((f"x|nested{depth}:{k}->inport", _x_entity([], ["std.concurrent_assign(self.r, sig)"] + nest(_writer(k, 1, "self.pin", "self.src"), depth)), "reject"))
+        out.append((f"x|nested{depth}:inst-output:single", _x_entity([], ["std.concurrent_assign(self.r, sig)"] + nest(["Sub(i=self.src, o=sig)"], depth)), "accept"))
+        out.append((f"x|nested{depth}:inst-output+inst-output", _x_entity([], ["std.concurrent_assign(self.r, sig)"] + nest(["Sub(i=self.src, o=sig)"], depth) + nest(["Sub(i=self.pin, o=sig)"], depth)), "reject"))
+        out.append((f"x|nested{depth}:inst-output+top-inst-output", _x_entity([], ["std.concurrent_assign(self.r, sig)", "Sub(i=self.pin, o=sig)"] + nest(["Sub(i=self.src, o=sig)"], depth)), "reject"))
+        out.append((f"x|nested{depth}:inst-output->inport", _x_entity([], nest(["Sub(i=self.src, o=self.pin)"], depth)), "reject"))
+        out.append((f"x|nested{depth}:variable-in-two-sequential", _x_entity(["v = Variable[BitVector[4]](name='v')"], ["@std.sequential(std.Clock(self.clk))", "def a():", "    nonlocal v", "    v @= self.src", "    self.q <<= v"] +
+                                                                          nest(["@std.sequential(std.Clock(self.clk))", "def b():", "    self.r <<= v"], depth)), "reject"))
     return out
 
 
